@@ -15,6 +15,7 @@ import warnings
 
 from harness import core
 from harness import integ_drive as D
+from harness import integ_tables
 
 MODULES = ["AdaptiveProofs.Props.C07"]
 
@@ -101,22 +102,27 @@ TRUSTED = core.COMMON_TRUSTED + [
     "everything numeric (abscissae of an interval, igral/err/force_split/remove/div of complete_process) is an uninterpreted "
     "oracle in the theorems and a table recorded on the real code in the tie (recording wrappers in harness/integ_drive.py)",
     "model constants ns=(5,9,17,33), ndiv_max=20 are asserted against adaptive.learner.integrator_coeffs at run time",
+    "node tables: harness/integ_tables.py dumps integrator_coeffs.xi (bit patterns + exact dyadic rationals) into "
+    "AdaptiveModel/Gen/IntegTables.lean before every proof build and asserts that _Interval.points is "
+    "(a+b)/2 + (b-a)*xi[depth]/2 elementwise; `Nested` is proved for that oracle (integ_no_internal_error_tables)",
     "CPython set/dict semantics, sortedcontainers.SortedSet(key=rdepth) ordering; the order of equal-rdepth members after the deep "
     "copy of a rolled-back ask is taken from the code (relational `reorder` event; theorems hold for every order)",
 ]
-PARTIAL = [
-    "integ_cut_partition_partial: proves only that the model's decidable check cutOK is sound for `done_leaves is a cut of the "
-    "interval's subtree`; that cutOK holds in every reachable state is NOT proved (full statement kept as "
-    "integ_cut_partition_statement) — it is evaluated by the driver on states of every correspondence history (op `cutcheck`) "
-    "and the python oracle checks contiguity/coverage of the real approximating_intervals after every operation",
-    "integ_no_internal_error assumes `Nested O` (abscissae of a rule are among those of the next finer rule): a fact about the "
-    "Clenshaw-Curtis tables, not proved in Lean; the correspondence feeds the code's real abscissae",
-]
+PARTIAL = []  # integ_cut_partition is proved in full; integ_cut_partition_partial (soundness of cutOK) is kept as a lemma
 
 
 def run(ctx):
-    proof = core.prove(MODULES, leanchecker=ctx.thorough)
     failures = []
+    # --- node tables of the live integrator_coeffs -> lean/AdaptiveModel/Gen/IntegTables.lean (before the proof build: the
+    #     `decide` proofs of Lemmas/IntegNested.lean are then re-checked against what the code computes with NOW)
+    try:
+        tables_changed, _ = integ_tables.generate()
+        tables_note = "regenerated (differs from the committed file)" if tables_changed else "up to date"
+    except AssertionError as e:
+        tables_note = f"generator assertion failed: {e}"
+        failures.append({"clause": "node_tables", "signature": "C07.node_tables:generator-assertion",
+                         "detail": f"harness/integ_tables.py: {e}", "replay": {"cmd": "python -m harness.integ_tables"}})
+    proof = core.prove(MODULES, leanchecker=ctx.thorough)
     # --- regression corpus on the real code
     cres = core.pmap(corpus_case, list(range(len(CORPUS))))
     for r in cres:
@@ -149,12 +155,13 @@ def run(ctx):
                     "intervals, npoints, pending points, done(), igral/err (summed in interval-number order) and the error class. "
                     "The oracle evaluates the property's clauses on the real object after every operation.",
         trusted=TRUSTED,
-        assumptions=["theorem integ_no_internal_error: nested abscissae (hypothesis `Nested`)", "tells carry abscissae handed out by ask (foreign abscissae only in the separate rejected-tell stream)",
+        assumptions=["theorem integ_no_internal_error: nested abscissae (hypothesis `Nested`; discharged for the real node tables "
+                     "by integ_no_internal_error_tables / integ_node_tables)", "tells carry abscissae handed out by ask (foreign abscissae only in the separate rejected-tell stream)",
                      "histories stop at the first internal error / divergence / NaN error estimate (max() over a hash set with NaN keys "
                      "is iteration-order dependent)",
                      "`from the moment the first rule is complete` is read as `whenever the set of approximating intervals is "
                      "non-empty` (the first interval's 17-point rule deliberately yields no estimate)"],
-        extra={"oracle_only": {"cases": len(extra), "distribution": ecorr.distribution},
+        extra={"node_tables": tables_note, "oracle_only": {"cases": len(extra), "distribution": ecorr.distribution},
                "corpus": [{"name": r["name"], "npoints": r["npoints"], "fails": [f[1] for f in r["fails"]]} for r in cres]},
         partial=PARTIAL,
     )
